@@ -154,6 +154,16 @@ def gen_Xsd(repo: pathlib.Path) -> str:
     if not prim:
         raise ExtractError("_PRIMITIVE_MAP not found")
 
+    # the XML-character pattern that _translate_to_simple_type skips
+    xml_pats = [
+        n.comparators[0].value
+        for n in ast.walk(_func(mod, "_translate_to_simple_type"))
+        if isinstance(n, ast.Compare) and len(n.ops) == 1 and isinstance(n.ops[0], ast.NotEq)
+        and isinstance(n.comparators[0], ast.Constant) and isinstance(n.comparators[0].value, str)
+    ]
+    if len(xml_pats) != 1:
+        raise ExtractError(f"expected one `pattern != <constant>` in _translate_to_simple_type, found {len(xml_pats)}")
+
     def table(d: Dict[str, str]) -> str:
         return "[" + ", ".join(f"({ord(k)}, {lean_text(v)})" for k, v in d.items()) + "]"
 
@@ -179,6 +189,8 @@ def gen_Xsd(repo: pathlib.Path) -> str:
         + f"def translateSteps : List String := {strs(steps)}\n"
         + "/-- `_PRIMITIVE_MAP`: (primitive type, XSD type) -/\n"
         + f"def primitiveMap : List (String × String) := [{', '.join('(' + json.dumps(a) + ', ' + json.dumps(b) + ')' for a, b in prim)}]\n"
+        + "/-- the pattern `_translate_to_simple_type` leaves out -/\n"
+        + f"def xmlCharPattern : Text := {lean_text(xml_pats[0])}\n"
         + "end AasVerif.Gen.Xsd\n"
     )
 
